@@ -59,7 +59,7 @@ def step_kind(cmd, apdu):
 class Bench:
     """One long-lived manager per protocol version; state is reset between runs."""
 
-    def __init__(self, version, platform="ledger"):
+    def __init__(self, version, platform="ledger", reverse=False):
         self.version = version
         self.platform = platform
         self.world, self.proto = mgr.serving_manager(version=version, platform=platform)
@@ -73,7 +73,7 @@ class Bench:
                 req = {"version": 5, "command": c, "blocks": [b["raw"].hex() for b in bl],
                        "brothers": [[x["raw"].hex() for x in b["brothers"]] for b in bl]}
             self.reqs[c] = json.dumps(req).encode()
-        self.steps = {c: self._dry(c) for c in self.reqs}
+        self.steps = {c: self._dry(c) for c in (reversed(list(self.reqs)) if reverse else self.reqs)}
 
     def reset(self):
         from ..transport import install
@@ -129,7 +129,9 @@ _BENCH = {}
 
 def _bench(version, platform="ledger"):
     if (version, platform) not in _BENCH:
-        _BENCH[(version, platform)] = Bench(version, platform)
+        # "rev": another Ledger manager, used with the commands in reverse order (what a manager sets up on the
+        # first use of one command must not decide how another command's outcomes are translated)
+        _BENCH[(version, platform)] = Bench(version, "ledger" if platform == "rev" else platform, reverse=platform == "rev")
     return _BENCH[(version, platform)]
 
 
@@ -249,6 +251,17 @@ def run(ctx):
             tasks.append((2, c, idx, st, sws, ["timeout", "wrongop"], "sgx"))
             n_sgx += 1
     res.coverage["exchange_indices_sgx"] = n_sgx
+    b = _bench(2, "rev")
+    n_rev = 0
+    for c in reversed(V5):
+        seen_kind = {}
+        for idx, st in enumerate(b.steps[c]):
+            if st in seen_kind:
+                continue
+            seen_kind[st] = True
+            tasks.append((2, c, idx, st, sorted(set(NAMED if full else NAMED[::2])), ["timeout"], "rev"))
+            n_rev += 1
+    res.coverage["exchange_indices_reverse_order"] = n_rev
     res.coverage["exchange_indices"] = n_idx
     cells = []
     if full:
@@ -278,7 +291,7 @@ def run(ctx):
         sig = "%s|%s cmd=%s step=%s kind=%s%s%s" % (
             clause, "v1" if c["v1"] else "v5", c["cmd"], c["step"], c["kind"],
             (" sw=%s" % sw_class(c["sw"])) if c["kind"] == "sw" else "",
-            " plat=sgx" if c.get("plat") == "sgx" else "")
+            (" plat=%s" % c["plat"]) if c.get("plat") in ("sgx", "rev") else "")
         res.violation(sig, "%s: %s at step %s, outcome %s%s -> reply code %s%s" % (
             clause, c["cmd"], c["step"], c["kind"], (" 0x%04X" % c["sw"]) if c["kind"] == "sw" else "",
             c["code"] if c["hascode"] else "<none>", ", manager stops" if c["shutdown"] else ""), {"cell": c})
